@@ -26,6 +26,12 @@ def set_clock():
     D.datetime = FakeDT
 
 
+def _chain(tasks, i):
+    while i is not None:
+        yield i
+        i = tasks[i]['parent']
+
+
 def random_case(prop, rng, tier):
     n = rng.randrange(1, 9)
     tasks = []
@@ -48,6 +54,15 @@ def random_case(prop, rng, tier):
             t['id'] += 1000
         ids.add(t['id'])
     links = [[rng.randrange(n), rng.randrange(n)] for _ in range(rng.randrange(0, n + 2))]
+    # ids are unique inside one project only: a task of the other project may carry the id of a member - and both may precede one task
+    outs = [i for i, t in enumerate(tasks) if t['outside']]
+    ins = [i for i, t in enumerate(tasks) if not t['outside'] and not any(tasks[j]['outside'] for j in _chain(tasks, i))]
+    if outs and ins and rng.random() < 0.5:
+        o, m = rng.choice(outs), rng.choice(ins)
+        if not any(t['parent'] == o for t in tasks):
+            tasks[o]['id'] = tasks[m]['id']
+            tgt = rng.choice(ins)
+            links += [[o, tgt], [m, tgt]]
     return {'tasks': tasks, 'links': links, 'title': rng.choice([None, 'My plan', 'T: x']), 'weekends': rng.random() < 0.5,
             'tick': rng.choice([None, '1week', '']), 'lateEdit': rng.random() < 0.25}
 
